@@ -175,7 +175,7 @@ Qed.
 
 Lemma op_checkmultisig_framed e opcode : framed e (op_checkmultisig low_s c e opcode).
 Proof.
-  unfold op_checkmultisig.
+  unfold op_checkmultisig, multisig_finish.
   destruct (c_sigver c =? SV_TAPSCRIPT). framed_leaf.
   destruct (ssize e <? 1). framed_leaf.
   destruct (num_at c e 1 4) as [kraw|x|x]; try framed_leaf.
